@@ -131,12 +131,22 @@ def directed_mwem_bounded(res, seed):
         i = rows2.index(mv_from)
         rows2[i] = list(mv_to)
         for alpha in (0.5, 0.9):
-            params = {'epsilon': 1.0, 'delta': 1e-6, 'rounds': 1, 'workload': [['a', 'b'], ['b', 'c'], ['a', 'c']], 'noise': 'gaussian', 'bounded': True, 'alpha': alpha}
-            for s in range(2):
-                frac = one_pair(res, 'mwem', dom, rows, rows2, params, seed + s, 'directed')
-                if frac is not None:
-                    best = max(best or 0, frac)
+            for noise in ('gaussian', 'laplace'):
+                params = {'epsilon': 1.0, 'delta': 1e-6, 'rounds': 1, 'workload': [['a', 'b'], ['b', 'c'], ['a', 'c']], 'noise': noise, 'bounded': True, 'alpha': alpha}
+                for s in range(2):
+                    frac = one_pair(res, 'mwem', dom, rows, rows2, params, seed + s, 'directed')
+                    if frac is not None:
+                        best = max(best or 0, frac)
     res.extra['mwem_bounded_directed_max_fraction'] = best
+
+
+def directed_adagrid_targets(res, r, seed):
+    """target columns enlarge step 1 to the downward closure of (attribute, targets): every release must be paid for"""
+    dom = DOMS[1]
+    rows = gen_rows(r, dom, 80)
+    for targets, split in ((['d'], None), (['d', 'b'], [0.1, 0.1, 0.8])):
+        params = {'epsilon': 1.0, 'delta': 1e-6, 'threshold': 5.0, 'targets': targets, 'split_strategy': split}
+        one_pair(res, 'adagrid', dom, rows, rows[:-1], params, seed, 'directed')
 
 
 def run(res, drv, tier, seed):
@@ -153,6 +163,7 @@ def run(res, drv, tier, seed):
             rows2 = neighbour(r, dom, rows, bounded, directed)
             one_pair(res, name, dom, rows, rows2, params, seed * 1000 + k, 'directed' if directed else 'random')
     directed_mwem_bounded(res, seed)
+    directed_adagrid_targets(res, r, seed)
     # the region excluded by aim_budget's hypothesis, on the real code
     dom = DOMS[1]
     rows = gen_rows(r, dom, 40)
